@@ -12,7 +12,6 @@ import (
 	"path/filepath"
 	"sort"
 	"strings"
-	"sync"
 	"time"
 
 	"github.com/pkg/sftp"
@@ -637,32 +636,6 @@ func gDigest(b []byte) string {
 		return fmt.Sprintf("%d bytes %x", len(b), b)
 	}
 	return fmt.Sprintf("%d bytes %x…%x", len(b), b[:12], b[len(b)-12:])
-}
-
-// ---- running many cases ----
-
-// gParallel runs the cases on a pool and hands every result to sink in input order.
-func gParallel(cases []*gCase, workers int, sink func(*gRun)) {
-	res := make([]*gRun, len(cases))
-	var wg sync.WaitGroup
-	ch := make(chan int)
-	for w := 0; w < workers; w++ {
-		wg.Add(1)
-		go func() {
-			defer wg.Done()
-			for i := range ch {
-				res[i] = gExec(cases[i])
-			}
-		}()
-	}
-	for i := range cases {
-		ch <- i
-	}
-	close(ch)
-	wg.Wait()
-	for _, r := range res {
-		sink(r)
-	}
 }
 
 // gProbeModel reports whether the model driver knows op (the driver answers "bad-op" to unknown operations).
